@@ -60,8 +60,8 @@ def run(ctx):
     cfgs = [("MCPkgManager_quick.cfg", 2200), ("MCPkgManager_foreignact.cfg", 400), ("MCPkgManager_foreign2.cfg", 300), ("MCPkgManager_quick_mid.cfg", 600),
             # revisions keep a finalizer: a deleted one stays listed (terminating) while further reconciles run (added after the seeded
             # change C14-m8 - a terminating revision is no candidate any more but still counts - was only caught by the thorough tier)
-            ("MCPkgManager_quick_fin.cfg", 900)] if quick else \
-           [("MCPkgManager_thorough.cfg", 30000), ("MCPkgManager_mid.cfg", 26000), ("MCPkgManager_foreignact.cfg", 4000), ("MCPkgManager_foreign2.cfg", 4000)]
+            ("MCPkgManager_quick_fin.cfg", 900), ("MCPkgManager_quick_legacy.cfg", 700)] if quick else \
+           [("MCPkgManager_thorough.cfg", 30000), ("MCPkgManager_mid.cfg", 26000), ("MCPkgManager_foreignact.cfg", 4000), ("MCPkgManager_foreign2.cfg", 4000), ("MCPkgManager_quick_legacy.cfg", 20000)]
     scs, states, trans, emitted = [], 0, 0, 0
     consts = {}
     for i, (cfg, n) in enumerate(cfgs):
